@@ -155,6 +155,25 @@ RasterCentres(reg, n, vals, o) ==
           LET idx == cidx(cx, cy) IN
           /\ idx < Len(o.palette)
           /\ ColNear(o.palette[idx+1], IF inside(cx, cy) /\ DarkAt(vals, cy - m, cx - m) THEN fg ELSE bg)
+\* C18 in the raster renderer (ImageBuilder forwards the embedded-image options to the document it rasterises): with explicit size, gap and
+\* position the frame is the square of side size + 2*gap centred on the position.  Every cell whose centre lies within the inscribed circle
+\* of that square shrunk by one module shows the frame colour (true for the three frame shapes alike); every cell whose centre lies more
+\* than one module outside the square shows what the symbol shows there.  The ring in between is not judged (alignment adjustment, rounded
+\* corners).  The referenced file does not exist, so nothing is drawn over the frame.  Milli-modules; requires no window and an image.
+RasterFrame(reg, n, vals, o) ==
+  LET m == reg.margin cells == n + 2*m
+      half == (reg.size + 2*reg.gap) \div 2
+      fr == Premul(reg.imgBg.rgba) fg == Premul(TopColor(reg).rgba) bg == Premul(reg.bg.rgba)
+      inside(cx, cy) == cx >= m /\ cx < m + n /\ cy >= m /\ cy < m + n
+      dx(cx) == AbsI(cx*1000 + 500 - reg.pos[1])
+      dy(cy) == AbsI(cy*1000 + 500 - reg.pos[2])
+  IN /\ o.cells = cells /\ Len(o.centre) = cells
+     /\ \A cy \in 0..cells-1 : \A cx \in 0..cells-1 :
+          LET idx == CentreIdx(o, cx, cy) IN
+          /\ idx < Len(o.palette)
+          /\ ((half > 1000 /\ dx(cx) < half /\ dy(cy) < half /\ dx(cx)*dx(cx) + dy(cy)*dy(cy) <= (half - 1000)*(half - 1000)) => ColNear(o.palette[idx+1], fr))
+          /\ ((dx(cx) > half + 1000 \/ dy(cy) > half + 1000) =>
+                 ColNear(o.palette[idx+1], IF inside(cx, cy) /\ DarkAt(vals, cy - m, cx - m) THEN fg ELSE bg))
 RasterUniform(reg, n, o) == LET cells == n + 2*reg.margin
                                 w0 == IF "win" \in DOMAIN o THEN o.win ELSE 0
                                 wn == IF "win" \in DOMAIN o THEN n + 8 ELSE cells IN
